@@ -101,7 +101,24 @@ UNIQUE_RECORD_PROPS = {"C02", "C06"}
 ROUTES = ["ctor", "ctor", "incremental", "mixed", "grown-by-merge", "re-added-case-insensitively"]
 
 
-def build(api, recs, delimiter, rng, how=None):
+def mk_records_sharing_lists(api, order, rng):
+    """Record objects made the way a user copies a template: `template.model_copy(update=...)` is a shallow copy, so
+    records whose synonym lists are equal (usually empty) share the list object.  A converter of such records is a
+    converter like any other for everything that derives a *new* converter from it."""
+    out, templates = [], []
+    for r in order:
+        t = next((x for x, r0 in templates if r0.psyn == r.psyn and r0.usyn == r.usyn), None)
+        if t is None or rng.random() < 0.3:
+            x = mk_record(api, r)
+        else:
+            x = t.model_copy(update={"prefix": r.prefix, "uri_prefix": r.uri_prefix, "pattern": r.pattern})
+            probe.S.counters["wl:records-sharing-synonym-lists"] += 1
+        templates.append((x, r))
+        out.append(x)
+    return out
+
+
+def build(api, recs, delimiter, rng, how=None, share_lists=False):
     """Build a real converter from plain records: constructor or incremental, in a random order.
 
     One build in four runs with the monitors switched off (monitors read public attributes such as `trie`, and an
@@ -110,12 +127,18 @@ def build(api, recs, delimiter, rng, how=None):
     how = how or rng.choice(ROUTES)
     if how == "re-added-case-insensitively" and not _fold_distinct(recs):
         how = "ctor"
+    if share_lists and how == "ctor" and rng.random() < 0.5:
+        order = rng.sample(list(recs), k=len(recs))
+        with probe.monitor_mode():
+            c = api.Converter(mk_records_sharing_lists(api, order, rng), delimiter=delimiter)
+        return c, "ctor+records-sharing-lists"
     if rng.random() < 0.25:
         probe.S.counters["wl:built-unobserved"] += 1
         with probe.monitor_mode():
             c, how = _build(api, recs, delimiter, rng, how)
     else:
         c, how = _build(api, recs, delimiter, rng, how)
+    c, how = _circumstance(api, c, delimiter, rng, how)
     if probe.S.prop in UNIQUE_RECORD_PROPS:
         # "its unique record": a converter grown from a clash-free map through the public API has one owner per string
         probe.evaluated("built-converter-has-one-owner-per-string")
@@ -126,11 +149,97 @@ def build(api, recs, delimiter, rng, how=None):
     return c, how
 
 
+_SUBCLASS = {}
+ORIG_PREFIX, ORIG_URI = "zzorig", "http://zz.orig/"  # registered on the original of a copied converter after the copy was taken
+
+
+def plain_subclass(api):
+    """A user subclass of Converter that overrides nothing."""
+    if api.Converter not in _SUBCLASS:
+        _SUBCLASS[api.Converter] = type("UserConverter", (api.Converter,), {"__doc__": "a user's subclass overriding nothing"})
+    return _SUBCLASS[api.Converter]
+
+
+_HOOKED = {}
+
+
+def hooked_subclass(api):
+    """A user subclass overriding only the documented hook `standardize_identifier`, the way the documentation suggests:
+    it removes a redundant prefix from the identifier and refuses (returns None for) identifiers ending in '!'."""
+    if api.Converter not in _HOOKED:
+        def standardize_identifier(self, standard_prefix, identifier):
+            red = standard_prefix + self.delimiter
+            if identifier.startswith(red):
+                identifier = identifier[len(red):]
+            if identifier.endswith("!"):
+                return None
+            return identifier
+
+        _HOOKED[api.Converter] = type("HookedConverter", (api.Converter,), {"standardize_identifier": standardize_identifier})
+    return _HOOKED[api.Converter]
+
+
+class Weird(str):
+    """A str subclass whose str() is not its text (like a member of `class P(str, Enum)`): its characters are what
+    they are.  Used only where the library is asked about the characters of a string (C20)."""
+
+    __slots__ = ()
+
+    def __str__(self):
+        return "Weird.member"
+
+    def __repr__(self):
+        return "<Weird: " + str.__repr__(self) + ">"
+
+
+class Str(str):
+    """A str subclass (like a str-valued enum member or a token type of the user's): still a string."""
+
+    __slots__ = ()
+
+
+def _circumstance(api, c, delimiter, rng, how):
+    """One converter in four is not used as built: it is a deep copy, went through pickle, or is an instance of a user
+    subclass (overriding nothing) rebuilt from deep copies of its records.  All of these are converters like any other."""
+    r = rng.random()
+    if r >= 0.28:
+        return c, how
+    import copy
+    import pickle
+
+    with probe.monitor_mode():
+        try:
+            if r < 0.09:
+                c2, tag = copy.deepcopy(c), "deep-copied"
+            elif r < 0.18:
+                c2, tag = pickle.loads(pickle.dumps(c)), "pickled"
+            else:
+                c2, tag = plain_subclass(api)([copy.deepcopy(x) for x in c.records], delimiter=delimiter), "user-subclass"
+        except RecursionError:  # the trie nests one node per character: very long URI prefixes cannot be copied today
+            probe.S.counters["wl:circumstance:copy-hit-recursion-limit"] += 1
+            return c, how
+        if tag != "user-subclass" and delimiter not in ORIG_PREFIX:
+            # the original lives on and grows: nothing of that may show in the copy (asked through gen.query_strings)
+            try:
+                c.add_prefix(ORIG_PREFIX, ORIG_URI)
+                probe.S.counters["wl:circumstance:original-extended-after-the-copy"] += 1
+            except ValueError:
+                pass
+    probe.S.counters[f"wl:circumstance:{tag}"] += 1
+    return c2, how + "+" + tag
+
+
 def _build(api, recs, delimiter, rng, how):
     order = list(recs)
     rng.shuffle(order)
     if how == "ctor":
-        return api.Converter([mk_record(api, r) for r in order], delimiter=delimiter), how
+        made = [mk_record(api, r) for r in order]
+        shape = rng.random()  # "records: Iterable[Record]": a list, a tuple, or a one-shot iterable
+        if shape < 0.15:
+            return api.Converter((x for x in made), delimiter=delimiter), how + "(generator)"
+        if shape < 0.25:
+            return api.Converter(tuple(made), delimiter=delimiter), how + "(tuple)"
+        return api.Converter(made, delimiter=delimiter), how
     if how == "re-added-case-insensitively":
         # every record is registered, then registered again through a case-insensitive merge (in pieces or whole):
         # no two strings of the map differ only by letter case, so every piece must find its own record and nothing else
@@ -200,7 +309,7 @@ def overlap_shape(recs):
 def query_strings(recs, d, rng, extra=()):
     allu = [u for r in recs for u in spec.all_u(r)]
     allp = [p for r in recs for p in spec.all_p(r)]
-    qs = {"", "zzz", d, "a" + d, d + "a", rng.choice(UNICODE), d + d}
+    qs = {"", "zzz", d, "a" + d, d + "a", rng.choice(UNICODE), d + d, ORIG_PREFIX + d + "1", ORIG_URI + "1", ORIG_PREFIX}
     for u in allu:
         qs |= {u, u[:-1], u + "1", u + rng.choice(IDS), u + rng.choice(UNICODE)}
         qs |= {u + ch for ch in "_/aA:"}
@@ -216,4 +325,6 @@ def query_strings(recs, d, rng, extra=()):
         for p in allp[:2]:
             qs.add(p + d + u)  # CURIE whose identifier is a registered URI prefix
     qs.update(extra)
-    return sorted(qs)
+    out = sorted(qs)
+    # one string in twelve is an instance of a str subclass: still a string, must be answered like the plain one
+    return [Str(q) if rng.random() < 0.08 else q for q in out]
